@@ -13,8 +13,9 @@ THEOREMS = ["LNN.C20_local",
             "LNN.C20_restricted_not_tighter",
             "LNN.C20_fol_call_local",
             "LNN.C20_fol_pass_local",
-            "LNN.C20_fol_local"]
-MODULES = ["LnnVerif.Props.C20"]
+            "LNN.C20_fol_local",
+            "LNN.C20_fol_verdict_final"]
+MODULES = ["LnnVerif.Props.C20", "LnnVerif.Props.C20Fol"]
 FACETS = {"bounds", "reported", "contra"}
 
 
